@@ -268,3 +268,39 @@ def r11_8_zero_offset_conversions(ctx: Ctx) -> RuleResult:
             else:
                 rr.ok({"fn": f.qual, "site": unparse(s)[:60], "why": "no offset parameter: a deliberate first guess, corrected by the neighbouring-interval probes (R05.x)"})
     return rr
+
+
+@rule("C11")
+def r11_11_calendar_identity(ctx: Ctx) -> RuleResult:
+    """Two calendar systems are the same calendar only if they are the same object / have the same id: `name` is shared by all
+    variants of a family (the eight Hijri calendars are all "Hijri", both Hebrew numberings "Hebrew", the three Persian
+    calendars "Persian").  No code decides "same calendar" on `.name`."""
+    rr = RuleResult("R11.11", "calendar systems are compared by identity / equality / id, never by name", min_instances=1)
+    R = ctx.R
+    n_cmp = 0
+    for f in sorted(set(ctx.M.func_of_node.values()), key=lambda x: x.qual):
+        if isinstance(f.node, ast.Lambda) or "_compatibility" in f.mod.rel:
+            continue
+        sc = None
+        for n in own_nodes(f.node):
+            if not (isinstance(n, ast.Compare) and len(n.ops) == 1 and isinstance(n.ops[0], (ast.Eq, ast.NotEq, ast.Is, ast.IsNot))):
+                continue
+            sides = [n.left, n.comparators[0]]
+            sc = sc or R.scope(f)
+
+            def cal(e: ast.expr) -> bool:
+                try:
+                    return R.type_of(e, sc) == "CalendarSystem"
+                except Exception:  # noqa: BLE001
+                    return False
+
+            if all(cal(s) for s in sides):
+                n_cmp += 1
+                rr.inst()
+                rr.ok()
+            elif all(isinstance(s, ast.Attribute) and s.attr == "name" and cal(s.value) for s in sides):
+                rr.inst()
+                rr.fail(f.qual, f"`{unparse(n)}` decides on the calendars' names, which all variants of a family share: different calendars (Hijri civil / astronomical, Hebrew civil / scriptural) are taken for the same one", ctx.loc(f, n))
+    if n_cmp == 0:
+        raise AnalysisError("no calendar comparison found in the package (type resolution broken?)")
+    return rr
